@@ -10,6 +10,7 @@ import (
 	"os"
 	"os/exec"
 	"path/filepath"
+	"reflect"
 	"regexp"
 	"sort"
 	"strings"
@@ -645,6 +646,93 @@ func runC06(c *core.Ctx, child bool) {
 			total.Write(int8bytes(dst[v]))
 		}
 	}
+	// ---- block-count sweep: ONE Absorb call with n blocks and ONE Squeeze call with m blocks, every n up to 130 (chunked
+	// or unrolled processing, powers of three and of two, 27 = 6561/243) and every m up to 40; batches of 1, 3 and 64 lanes
+	// with distinct lanes; the one-lane reference sponge (bitexec/refcurl) judges every lane. A second instance absorbs the
+	// same input in another split (n = a + b) and must agree.
+	{
+		laneTrit := func(j, i int) int8 {
+			x := uint32(j*7919+i*104729+17) * 2654435761
+			x ^= x >> 15
+			return int8(x%3) - 1
+		}
+		type bc struct{ n, m, batch int }
+		var cases []bc
+		for n := 1; n <= 130; n++ {
+			b := 1
+			if n%9 == 0 || n == 64 || n == 128 {
+				b = 64
+			} else if n%2 == 0 {
+				b = 3
+			}
+			cases = append(cases, bc{n, 1 + n%3, b})
+		}
+		for m := 1; m <= 40; m++ {
+			cases = append(cases, bc{2, m, 1 + 2*(m%2)})
+		}
+		var bad atomic.Int64
+		core.Par(len(cases), func(ci int) {
+			k := cases[ci]
+			src := make([]trinary.Trits, k.batch)
+			for j := range src {
+				src[j] = make(trinary.Trits, 243*k.n)
+				for i := range src[j] {
+					src[j][i] = laneTrit(j, i)
+				}
+			}
+			run := func(split int) ([]trinary.Trits, interface{}, error) {
+				cu := curl.NewCurlP81()
+				dst := make([]trinary.Trits, k.batch)
+				var err error
+				p := core.Catch(func() {
+					if split == 0 {
+						err = cu.Absorb(src, 243*k.n)
+					} else {
+						head, tail := make([]trinary.Trits, k.batch), make([]trinary.Trits, k.batch)
+						for j := range src {
+							head[j], tail[j] = src[j][:243*split], src[j][243*split:]
+						}
+						if err = cu.Absorb(head, 243*split); err == nil {
+							err = cu.Absorb(tail, 243*(k.n-split))
+						}
+					}
+					if err == nil {
+						err = cu.Squeeze(dst, 243*k.m)
+					}
+				})
+				return dst, p, err
+			}
+			c.Eval(1)
+			cas := map[string]int{"absorbed_blocks": k.n, "squeezed_blocks": k.m, "batch": k.batch}
+			dst, p, err := run(0)
+			if p != nil || err != nil {
+				c.Violate("C06/block-count/error", fmt.Sprintf("Absorb of %d blocks / Squeeze of %d blocks, batch %d: %v %v", k.n, k.m, k.batch, p, err), cas, "", nil)
+				bad.Add(1)
+				return
+			}
+			for j := range src {
+				in := make([]int8, len(src[j]))
+				for i, t := range src[j] {
+					in[i] = t
+				}
+				want, _ := refcurl.Sum(in, 243*k.m)
+				if !bytes.Equal(int8bytes(dst[j]), int8bytes(want)) {
+					c.Violate("C06/block-count/lane-output", fmt.Sprintf("one Absorb call with %d blocks, one Squeeze call with %d blocks, batch %d: lane %d differs from the one-lane Curl-P-81 sponge", k.n, k.m, k.batch, j), cas, "", nil)
+					bad.Add(1)
+					return
+				}
+			}
+			if k.n >= 2 {
+				d2, p2, e2 := run(k.n/3 + 1)
+				if p2 != nil || e2 != nil || !reflect.DeepEqual(d2, dst) {
+					c.Violate("C06/block-count/split-differs", fmt.Sprintf("%d blocks absorbed as %d+%d give another output than absorbed in one call (%v %v)", k.n, k.n/3+1, k.n-k.n/3-1, p2, e2), cas, "", nil)
+					bad.Add(1)
+				}
+			}
+		})
+		c.Set("block_count_cases", int64(len(cases)))
+	}
+
 	// ---- sparse blocks: all zero except one trit (every position, both signs) or except the last k trits ----
 	{
 		var blocks [][243]int8
